@@ -44,6 +44,12 @@ func (x *X) kindOf(t types.Type) kind {
 	if t.String() == "*os.File" || t.String() == "*"+modPath+"lib/rsocks.rssock" || t.String() == "*"+modPath+"lib/rsocks.rrsock" {
 		return kSock
 	}
+	if t.String() == "*net.IPNet" || t.String() == "net.IPNet" {
+		if _, isPtr := t.(*types.Pointer); isPtr {
+			return kPtrStruct
+		}
+		return kStruct
+	}
 	if t.String() == "time.Time" {
 		return kInt // nanoseconds since the Unix epoch (monotonic reading ignored; trusted)
 	}
@@ -88,6 +94,10 @@ func (x *X) kindOf(t types.Type) kind {
 	case *types.Map:
 		if b, ok := u.Key().Underlying().(*types.Basic); ok && b.Kind() == types.String {
 			if ek := x.kindOf(u.Elem()); ek != kOther && ek != kPtrStruct && ek != kFunc && ek != kRef {
+				return kMap
+			}
+			// map[string]*T of configuration records (protobuf): the values are never nil (trusted: the text parser)
+			if x.kindOf(u.Elem()) == kPtrStruct && strings.Contains(u.Elem().String(), "/lib/server/proto.") {
 				return kMap
 			}
 		}
@@ -212,6 +222,9 @@ func elemOf(t types.Type) types.Type {
 }
 
 func (x *X) structName(t types.Type) string {
+	if t.String() == "net.IPNet" {
+		return "Go.IPNet"
+	}
 	n, ok := t.(*types.Named)
 	if !ok {
 		bad("anonymous struct %s", t.String())
